@@ -99,6 +99,8 @@ func hpackOnce(c *hpackCase, blocks [][]byte) (res result) {
 			}
 			if i == len(blocks)-1 {
 				res.first = out
+			} else if err != nil {
+				res.first = "error-in-earlier-block" // e.g. a valid value longer than the configured max string length
 			}
 			if err != nil {
 				break // a compression error is a connection error
@@ -551,6 +553,9 @@ func fuzzDecode(f *testing.F, proto string) {
 	f.Fuzz(func(t *testing.T, in []byte) {
 		if len(in) > 1<<16 {
 			t.Skip()
+		}
+		if knownSlowShape(proto, in, false) {
+			t.Skip("listed finding, excluded by construction")
 		}
 		c := &decodeCase{Part: "fuzz-" + proto, Proto: proto, Input: hex.EncodeToString(in), Mutation: "fuzz"}
 		fuzzVerdict(t, "fuzz-"+proto, checkDecode(c, in).fail)
